@@ -320,6 +320,8 @@ class Facts:
             for sk in d["skipped"]:
                 self.skipped[sk["path"]] = sk["why"]
         self._const_cache = {}
+        from .anchors import reanchor
+        self.moved = reanchor(self)
 
     def body(self, path):
         return self.bodies.get(path)
